@@ -24,6 +24,9 @@ INPLACE_FUNCS = {'np.copyto': 0, 'np.put': 0, 'np.place': 0, 'np.putmask': 0, 'n
 
 
 _CALLEE_CACHE = {}
+import re
+# a level data slot: <level expr>.u[i] / .f[i] / .uold[i] / .fold[i] / .tau[i] / .residual[i] / .increment[i] / .uend
+SLOT_RX = re.compile(r'^(?!self\.(u|f)\b)[\w\.\[\]\-\+ ]*\.(?:(?:u|f|uold|fold|tau|residual|increment|u_avg)\[[^\]]+\]|uend)$')
 
 
 class Hit:
@@ -35,8 +38,9 @@ class Hit:
 
 
 class Purity:
-    def __init__(self, fn, params=None, track_self=False, resolver=None, _depth=0):
+    def __init__(self, fn, params=None, track_self=False, resolver=None, _depth=0, slots=False):
         self.fn = fn
+        self.slots = slots  # treat reads of level data slots (X.u[i], X.f[i], X.uend, ...) as tracked sources
         self.resolver = resolver  # method name -> FunctionDef (same class / MRO), for one level of call-through
         self._depth = _depth
         a = fn.args
@@ -60,6 +64,10 @@ class Purity:
             return frozenset({FRESH})
         if isinstance(e, ast.Name):
             return st.get(e.id, frozenset({FRESH}))
+        if self.slots and isinstance(e, (ast.Attribute, ast.Subscript)):
+            txt = ast.unparse(e)
+            if SLOT_RX.search(txt):
+                return frozenset({('param', 'slot:' + txt, 'alias')})
         if isinstance(e, ast.Attribute):
             if isinstance(e.value, ast.Name) and e.value.id == 'self':
                 if e.attr in FRESH_SELF_PROPERTIES:
@@ -191,13 +199,18 @@ class Purity:
                 continue
             self._call_through(c, st)
             f = ast.unparse(c.func)
+            if isinstance(c.func, ast.Attribute) and c.func.attr == 'bcast' and self.slots and 'comm' not in ast.unparse(c.func.value):
+                recv = self.val(c.func.value, st)
+                if self._dirty(recv):
+                    self._hit('call', c, ast.unparse(c.func.value), recv, '.bcast() (receives in place on non-root ranks)')
             if isinstance(c.func, ast.Attribute) and c.func.attr in INPLACE_METHODS:
                 recv = self.val(c.func.value, st)
                 if self._dirty(recv) and not (isinstance(c.func.value, ast.Name) and c.func.value.id == 'self'):
                     self._hit('call', c, ast.unparse(c.func.value), recv, f'.{c.func.attr}()')
-                # communication calls that receive INTO an argument
-                if c.func.attr in ('Bcast', 'Recv', 'Irecv', 'Allreduce', 'Reduce') and c.args:
-                    pos = 1 if c.func.attr in ('Allreduce', 'Reduce') and len(c.args) > 1 else 0
+            # communication calls that receive INTO an argument
+            if isinstance(c.func, ast.Attribute) and c.func.attr in ('Bcast', 'Recv', 'Irecv', 'Allreduce', 'Reduce', 'Ibcast', 'Allgather', 'Gather') and c.args:
+                pos = 1 if c.func.attr in ('Allreduce', 'Reduce', 'Allgather', 'Gather') else 0
+                if len(c.args) > pos:
                     a = self.val(c.args[pos], st)
                     if self._dirty(a):
                         self._hit('call', c, ast.unparse(c.args[pos]), a, f'{c.func.attr} receive buffer')
